@@ -74,7 +74,49 @@ type c04Path struct {
 
 // resolve follows phis along the path.
 func (pa *c04Path) resolve(v ssa.Value) ssa.Value {
-	for i := 0; i < 64; i++ {
+	if in, ok := v.(ssa.Instruction); ok {
+		if idx, onPath := pa.index[in.Block()]; onPath {
+			return pa.resolveAt(v, idx, instrIndex(in), 0)
+		}
+	}
+	return pa.resolveAt(v, len(pa.blocks)-1, 1<<30, 0)
+}
+
+// c04LocalField: v is a load of field f of a local struct variable (not a parameter copy).
+func c04LocalField(v ssa.Value) (*ssa.Alloc, int, bool) {
+	u, ok := v.(*ssa.UnOp)
+	if !ok || u.Op != token.MUL {
+		return nil, 0, false
+	}
+	fa, ok := u.X.(*ssa.FieldAddr)
+	if !ok {
+		return nil, 0, false
+	}
+	a, ok := fa.X.(*ssa.Alloc)
+	if !ok || c04ParamOfAlloc(a) != nil {
+		return nil, 0, false
+	}
+	return a, fa.Field, true
+}
+
+// resolveAt follows phis along the path and, for loads of fields of local
+// struct variables, the last store on the path before position (bi, ii).
+func (pa *c04Path) resolveAt(v ssa.Value, bi, ii, depth int) ssa.Value {
+	for i := 0; i < 64 && depth < 16; i++ {
+		if a, f, ok := c04LocalField(v); ok {
+			if in, isIn := v.(ssa.Instruction); isIn {
+				if idx, onPath := pa.index[in.Block()]; onPath {
+					bi, ii = idx, instrIndex(in)
+				}
+			}
+			st, sbi, sii := pa.lastStore(a, f, bi, ii)
+			if st == nil {
+				return v
+			}
+			v, bi, ii = st.Val, sbi, sii
+			depth++
+			continue
+		}
 		ph, ok := v.(*ssa.Phi)
 		if !ok {
 			return v
@@ -95,8 +137,41 @@ func (pa *c04Path) resolve(v ssa.Value) ssa.Value {
 		if !found {
 			return v
 		}
+		bi, ii = idx-1, 1<<30
 	}
 	return v
+}
+
+// lastStore: the last store to field f of local a on the path strictly before (bi, ii).
+func (pa *c04Path) lastStore(a *ssa.Alloc, f, bi, ii int) (*ssa.Store, int, int) {
+	for b := bi; b >= 0; b-- {
+		instrs := pa.blocks[b].Instrs
+		hi := len(instrs)
+		if b == bi && ii < hi {
+			hi = ii
+		}
+		for k := hi - 1; k >= 0; k-- {
+			if st, ok := instrs[k].(*ssa.Store); ok {
+				if fa, ok := st.Addr.(*ssa.FieldAddr); ok && fa.X == ssa.Value(a) && fa.Field == f {
+					return st, b, k
+				}
+			}
+		}
+	}
+	return nil, 0, 0
+}
+
+// fieldAt: the value of field f of local a at instruction `at` on the path.
+func (pa *c04Path) fieldAt(a *ssa.Alloc, f int, at ssa.Instruction) ssa.Value {
+	bi, ok := pa.index[at.Block()]
+	if !ok {
+		return nil
+	}
+	st, sbi, sii := pa.lastStore(a, f, bi, instrIndex(at))
+	if st == nil {
+		return nil
+	}
+	return pa.resolveAt(st.Val, sbi, sii, 0)
 }
 
 // c04PathsTo enumerates the acyclic, decision-consistent paths from the entry
@@ -122,8 +197,7 @@ func c04PathsTo(fn *ssa.Function, target *ssa.BasicBlock) ([]*c04Path, bool) {
 			return
 		}
 		if onPath[b] {
-			ok = false // a cycle before the call: not the loop-free shape this rule handles
-			return
+			return // a back edge: only the acyclic paths (first passage through each loop) are enumerated
 		}
 		blocks = append(blocks, b)
 		onPath[b] = true
@@ -230,13 +304,24 @@ func c04DocHasNStep(doc string) bool {
 // parsed value (a-b/step) or the field maximum; it is never the start value
 // itself. Returns false if fn has no path with a parsed step (nothing to decide).
 func c04NStepRule(p *Prog, r *Report, rule string, fn *ssa.Function, call *ssa.Call, ordinal int, bpar *ssa.Parameter, minF, maxF string) bool {
-	fname := FuncName(p, fn)
-	construct := fmt.Sprintf("%s %s#%d: N/step extends to max", fname, c04CalleeName(call), ordinal)
-	pos := p.Pos(instrPos(call))
-	if len(call.Call.Args) != 3 || bpar == nil {
+	if len(call.Call.Args) != 3 {
 		return false
 	}
-	paths, ok := c04PathsTo(fn, call.Block())
+	construct := fmt.Sprintf("%s %s#%d: N/step extends to max", FuncName(p, fn), c04CalleeName(call), ordinal)
+	return c04NStepRuleAt(p, r, rule, fn, call, construct, func(pa *c04Path) (ssa.Value, ssa.Value, ssa.Value) {
+		return pa.resolve(call.Call.Args[0]), pa.resolve(call.Call.Args[1]), pa.resolve(call.Call.Args[2])
+	}, bpar, minF, maxF)
+}
+
+// c04NStepRuleAt: the rule at an arbitrary site `at` of fn, the three values handed to
+// the bit-set builder being given per path by `get` (direct arguments, or the fields of
+// a struct handed to a helper that calls the builder with them).
+func c04NStepRuleAt(p *Prog, r *Report, rule string, fn *ssa.Function, at ssa.Instruction, construct string, get func(pa *c04Path) (ssa.Value, ssa.Value, ssa.Value), bpar *ssa.Parameter, minF, maxF string) bool {
+	pos := p.Pos(instrPos(at))
+	if bpar == nil {
+		return false
+	}
+	paths, ok := c04PathsTo(fn, at.Block())
 	if !ok {
 		r.Undecide("%s: the paths to the call cannot be enumerated (cycle or too many paths)", construct)
 		return true
@@ -248,7 +333,11 @@ func c04NStepRule(p *Prog, r *Report, rule string, fn *ssa.Function, call *ssa.C
 	parsedStep := false
 	otherEnd := 0 // paths whose end value is of a kind the rule does not classify
 	for _, pa := range paths {
-		a0, a1, a2 := pa.resolve(call.Call.Args[0]), pa.resolve(call.Call.Args[1]), pa.resolve(call.Call.Args[2])
+		a0, a1, a2 := get(pa)
+		if a0 == nil || a1 == nil || a2 == nil {
+			otherEnd++
+			continue
+		}
 		if _, isK := a2.(*ssa.Const); isK {
 			continue // no step part on this path
 		}
@@ -298,7 +387,7 @@ func c04NStepRule(p *Prog, r *Report, rule string, fn *ssa.Function, call *ssa.C
 	case len(bad) > 0:
 		// both: the extension is conditional. Classified bad shape: conditional on the step's value.
 		for _, pa := range bad {
-			step := pa.resolve(call.Call.Args[2])
+			_, _, step := get(pa)
 			if why, dep := describe(pa, step); dep {
 				// decisions that also guard the call (step != 0) are on every path; look for one that distinguishes bad from good
 				distinguishes := false
